@@ -432,14 +432,24 @@ def regSteps (me blk : Nat) (v : View) : Event → List Step × Outcome
   | .unknownTopic => ([], .ignored)
   | .noTopics => ([], .panic)
 
+/-- run a handler's step list: every key-manager call is expanded against the wallet as it is at that moment -/
+def runMacro : Node → List Step → Node
+  | n, [] => n
+  | n, s :: ss => runMacro (runSteps n (expand n.wal s)) ss
+
+/-- the micro-steps `runMacro` executes, in order -/
+def macroTrace : Node → List Step → List Step
+  | _, [] => []
+  | n, s :: ss => expand n.wal s ++ macroTrace (runSteps n (expand n.wal s)) ss
+
 /-- the fully expanded micro-steps of one event in node state `n` -/
 def eventSteps (me blk : Nat) (n : Node) (e : Event) : List Step :=
-  (regSteps me blk (viewOf n.reg) e).1.flatMap (expand n.wal)
+  macroTrace n (regSteps me blk (viewOf n.reg) e).1
 
 def eventOutcome (me blk : Nat) (n : Node) (e : Event) : Outcome := (regSteps me blk (viewOf n.reg) e).2
 
 def applyEvent (me blk : Nat) (n : Node) (e : Event) : Node × Outcome :=
-  (runSteps n (eventSteps me blk n e), eventOutcome me blk n e)
+  (runMacro n (regSteps me blk (viewOf n.reg) e).1, eventOutcome me blk n e)
 
 /-! ## blocks -/
 
